@@ -62,7 +62,36 @@ func Float64ListToDecimalIntList(dst []int64, src []float64) ([]int64, int16, er
 		}
 		decimals[i] = scaled
 	}
+	if !decodesExactly(decimals, minExp, src) {
+		return nil, 0, errCannotEncodeLossless
+	}
 	return decimals, minExp, nil
+}
+
+// decodesExactly reports whether DecimalIntListToFloat64List reproduces src from values.
+// It does not when the decimal mantissa exceeds 2^53: converting it to float64 and scaling rounds twice.
+func decodesExactly(values []int64, exponent int16, src []float64) bool {
+	if exponent >= 0 {
+		scale := math.Pow10(int(exponent))
+		for i, v := range values {
+			if float64(v)*scale != src[i] {
+				return false
+			}
+		}
+		return true
+	}
+	var divisorsBuf [4]float64
+	divisors := computeDivisors(int(-exponent), divisorsBuf[:0])
+	for i, v := range values {
+		result := float64(v)
+		for _, d := range divisors {
+			result /= d
+		}
+		if result != src[i] {
+			return false
+		}
+	}
+	return true
 }
 
 // DecimalIntListToFloat64List restores float64 values from scaled int64s using a decimal exponent.
